@@ -7,7 +7,8 @@
    [parse_ast_with false] is the model of the pinned code, which panics. *)
 From Coq Require Import ZArith List Bool.
 From Model Require Import Tree Text Instr AsmAst Lexer Parser.
-From Proofs Require Import LexerProofs ParserProofs.
+From Gen Require UnicodeTables.
+From Proofs Require Import LexerProofs LexStepProofs ParserProofs.
 Import ListNotations.
 Open Scope Z_scope.
 
@@ -48,6 +49,13 @@ Theorem C04_pinned_refuted :
   parse_ast w_backslash_multibyte = POk [mkStmt [] (NDir (DStringz [97; 92; 233])) 0 15].
 Proof. exact parse_ast_pinned_panics. Qed.
 Print Assumptions C04_pinned_refuted.
+
+(* the model answers ASCII characters without consulting the generated Unicode tables; both agree *)
+Theorem C04_ascii_tables : forall c, 0 <= c < 128 ->
+  in_ranges UnicodeTables.perl_word c = (is_digit c || is_alpha_us c) /\
+  in_ranges UnicodeTables.perl_decimal c = is_digit c.
+Proof. exact ascii_tables_agree. Qed.
+Print Assumptions C04_ascii_tables.
 
 Example C04_ex : parse_ast [233] = PErr (ELex InvalidSymbol) (0, 2) /\ parse_ast [] = POk [] /\
                  parse_ast [65; 68; 68] = PErr (EMsg MExpReg) (0, 3).
